@@ -1,1 +1,129 @@
-//! Hooks for property C37 (empty unless needed).
+//! In-process server constructor shared by the hooks of C36..C39.
+//!
+//! Builds the real [`ZoneStore`] over a caller-supplied redb database, the real [`DnsHandler`]
+//! (catalog + node zone handler) and the real axum router (`/pkarr/{key}` PUT/GET, `/dns-query`)
+//! without binding any socket.
+use std::{sync::Arc, time::Duration};
+
+use bytes::Bytes;
+use hickory_server::proto::rr::{Name, RecordSet, RecordType};
+use iroh_base::PublicKey;
+use iroh_dns::pkarr::SignedPacket;
+use n0_error::Result;
+
+use crate::{
+    dns::{DnsConfig, DnsHandler},
+    http::{RateLimitConfig, create_app},
+    metrics::Metrics,
+    state::AppState,
+    store::{Options, PacketSource, ZoneStore},
+    util::PublicKeyBytes,
+};
+
+/// Mirror of the crate-private store options.
+#[derive(Debug, Clone, Copy)]
+pub struct StoreOptions {
+    pub max_batch_size: usize,
+    pub max_batch_time: Duration,
+    pub eviction: Duration,
+    pub eviction_interval: Duration,
+    /// capacity of the zone cache (production value: 1024 * 1024)
+    pub cache_capacity: usize,
+}
+
+impl From<StoreOptions> for Options {
+    fn from(o: StoreOptions) -> Self {
+        Options {
+            max_batch_size: o.max_batch_size,
+            max_batch_time: o.max_batch_time,
+            eviction: o.eviction,
+            eviction_interval: o.eviction_interval,
+        }
+    }
+}
+
+/// The server without its sockets.
+#[derive(Clone)]
+pub struct App {
+    state: AppState,
+}
+
+impl App {
+    /// Real store + DNS handler over `db`. Must be called inside a tokio runtime (the store
+    /// spawns its two io threads on the current runtime handle).
+    pub fn new(db: redb::Database, options: StoreOptions, origins: Vec<String>) -> Result<Self> {
+        let metrics = Arc::new(Metrics::default());
+        let store = ZoneStore::verif_with_database(db, options.into(), options.cache_capacity, metrics.clone())?;
+        let mut config = crate::config::Config::default().dns;
+        config.origins = origins;
+        Self::with_store(store, &config, metrics)
+    }
+
+    fn with_store(store: ZoneStore, config: &DnsConfig, metrics: Arc<Metrics>) -> Result<Self> {
+        let dns_handler = DnsHandler::new(store.clone(), config, metrics.clone())?;
+        Ok(Self {
+            state: AppState {
+                store,
+                dns_handler,
+                metrics,
+            },
+        })
+    }
+
+    /// Same, over redb's in-memory backend.
+    pub fn in_memory(options: StoreOptions, origins: Vec<String>) -> Result<Self> {
+        use n0_error::StdResultExt;
+        let db = redb::Database::builder()
+            .create_with_backend(redb::backends::InMemoryBackend::new())
+            .anyerr()?;
+        Self::new(db, options, origins)
+    }
+
+    /// The real axum application (rate limiting disabled). Requests need a
+    /// `ConnectInfo<SocketAddr>` extension, as under `into_make_service_with_connect_info`.
+    pub fn router(&self) -> axum::Router {
+        create_app(self.state.clone(), &RateLimitConfig::Disabled)
+    }
+
+    /// `ZoneStore::insert`: the update flag.
+    pub async fn insert(&self, packet: SignedPacket) -> Result<bool> {
+        self.state
+            .store
+            .insert(packet, PacketSource::PkarrPublish)
+            .await
+    }
+
+    /// `ZoneStore::get_signed_packet`.
+    pub async fn get_signed_packet(&self, key: &PublicKey) -> Result<Option<SignedPacket>> {
+        self.state
+            .store
+            .get_signed_packet(&PublicKeyBytes::new_unchecked(*key.as_bytes()))
+            .await
+    }
+
+    /// `ZoneStore::resolve` (name relative to the key's zone).
+    pub async fn resolve(
+        &self,
+        key: &PublicKey,
+        name: &Name,
+        record_type: RecordType,
+    ) -> Result<Option<Arc<RecordSet>>> {
+        self.state
+            .store
+            .resolve(
+                &PublicKeyBytes::new_unchecked(*key.as_bytes()),
+                name,
+                record_type,
+            )
+            .await
+    }
+
+    /// `DnsHandler::answer_request` (what the UDP/TCP listeners and DoH call).
+    pub async fn answer_dns(&self, request: hickory_server::server::Request) -> Result<Bytes> {
+        self.state.dns_handler.answer_request(request).await
+    }
+
+    pub fn metrics(&self) -> &Arc<Metrics> {
+        &self.state.metrics
+    }
+}
